@@ -3,6 +3,7 @@ import Ufw.Tie.Slip
 import Ufw.Tie.SlipFns.Common
 import Ufw.Tie.SlipFns.ContextInit
 import Ufw.Tie.SlipFns.Encode
+import Ufw.Tie.SlipFns.Decode
 #print axioms Ufw.Props.C12.enc_eq_rfc
 #print axioms Ufw.Props.C12.encode_emits_enc
 #print axioms Ufw.Props.C12.no_inner_delimiter
@@ -26,6 +27,8 @@ import Ufw.Tie.SlipFns.Encode
 #print axioms Ufw.Tie.SlipFns.putAll_model
 #print axioms Ufw.Tie.SlipFns.putAll_full
 #print axioms Ufw.Tie.SlipFns.putAll_ok
+#print axioms Ufw.Tie.SlipFns.enodata_iff
+#print axioms Ufw.Tie.SlipFns.eilseq_iff
 #print axioms Ufw.Tie.SlipFns.gen_rfc1055_context_init
 #print axioms Ufw.Tie.SlipFns.zero_toInt
 #print axioms Ufw.Tie.SlipFns.eof_octet
@@ -36,6 +39,20 @@ import Ufw.Tie.SlipFns.Encode
 #print axioms Ufw.Tie.SlipFns.encode_octet_spec
 #print axioms Ufw.Tie.SlipFns.neg_enodata_lt
 #print axioms Ufw.Tie.SlipFns.errOf_enodata
-#print axioms Ufw.Tie.SlipFns.enodata_iff
 #print axioms Ufw.Tie.SlipFns.encode_loop
 #print axioms Ufw.Tie.SlipFns.gen_rfc1055_encode
+#print axioms Ufw.Tie.SlipFns.zero_toInt'
+#print axioms Ufw.Tie.SlipFns.is_esc'
+#print axioms Ufw.Tie.SlipFns.is_eof'
+#print axioms Ufw.Tie.SlipFns.is_esceof
+#print axioms Ufw.Tie.SlipFns.is_escesc
+#print axioms Ufw.Tie.SlipFns.neg_enodata_lt'
+#print axioms Ufw.Tie.SlipFns.one_not_neg
+#print axioms Ufw.Tie.SlipFns.decode_octet_spec
+#print axioms Ufw.Tie.SlipFns.transition_spec
+#print axioms Ufw.Tie.SlipFns.stOf_stCode
+#print axioms Ufw.Tie.SlipFns.retD_neg
+#print axioms Ufw.Tie.SlipFns.errOf_nodata
+#print axioms Ufw.Tie.SlipFns.sof_code
+#print axioms Ufw.Tie.SlipFns.decode_loop
+#print axioms Ufw.Tie.SlipFns.gen_rfc1055_decode
